@@ -91,25 +91,67 @@ def run_jobs(jobs, wd, tag, need_io=False, timeout=3000):
     return op, (ip if need_io else None), stats
 
 
+CHUNK_LINES = 20000     # TLC handles behaviours of at most 65535 states; DiskTrace takes up to ~2 steps per trace line
+
+
+def _io_chunks(io_path, wd):
+    """Split a recorded I/O trace at run boundaries ('reset' lines) into files of at most CHUNK_LINES lines."""
+    chunks, cur, n = [], [], 0
+    with open(io_path) as f:
+        run = []
+        for ln in f:
+            if ln.startswith('{"ev":"reset"') and run:
+                if cur and len(cur) + len(run) > CHUNK_LINES:
+                    chunks.append(cur)
+                    cur = []
+                cur += run
+                run = []
+            run.append(ln)
+        if run:
+            if cur and len(cur) + len(run) > CHUNK_LINES:
+                chunks.append(cur)
+                cur = []
+            cur += run
+    if cur:
+        chunks.append(cur)
+    if len(chunks) <= 1:
+        return [io_path]
+    paths = []
+    base = os.path.basename(io_path)
+    for k, c in enumerate(chunks):
+        p = os.path.join(wd, "%s.part%d" % (base, k))
+        with open(p, "w") as f:
+            f.writelines(c)
+        paths.append(p)
+    return paths
+
+
 def expand_images(io_path, wd, max_exh=10, nrandom=48, timeout=2400, stats=None):
-    """TLC enumerates the crash images of every recorded run (spec/DiskTrace.tla)."""
+    """TLC enumerates the crash images of every recorded run (spec/DiskTrace.tla); long recordings are validated in
+    chunks of whole runs."""
     cfg = cfg_text(constants={"TraceFile": "io.ndjson", "MaxExh": max_exh, "NRandom": nrandom},
                    invariants=["Emit"], post="Consumed")
-    r = tlc("DiskTrace", cfg, files={"io.ndjson": io_path}, timeout=timeout)
-    if r.error or r.violated:
-        raise Inconclusive("DiskTrace failed: %s %s\n%s" % (r.error, r.violated, r.errctx or r.out[-3000:]))
-    imgs = tlc_payloads(r, "IMG")
     by = {}
-    for im in imgs:
-        for k in ("keep", "len"):
-            if isinstance(im[k], list):   # ToJson of an empty function
-                im[k] = {}
-        by.setdefault(im["path"], []).append(im)
-    if stats is not None:
-        stats["disk_states"] = stats.get("disk_states", 0) + r.generated
-        stats["disk_distinct"] = stats.get("disk_distinct", 0) + r.distinct
-        stats["disk_wall"] = stats.get("disk_wall", 0) + r.wall
-        stats["images"] = stats.get("images", 0) + len(imgs)
+    parts = _io_chunks(io_path, wd)
+    for part in parts:
+        r = tlc("DiskTrace", cfg, files={"io.ndjson": part}, timeout=timeout)
+        if r.error or r.violated:
+            raise Inconclusive("DiskTrace failed: %s %s\n%s" % (r.error, r.violated, r.errctx or r.out[-3000:]))
+        imgs = tlc_payloads(r, "IMG")
+        for im in imgs:
+            for k in ("keep", "len"):
+                if isinstance(im[k], list):   # ToJson of an empty function
+                    im[k] = {}
+            by.setdefault(im["path"], []).append(im)
+        if stats is not None:
+            stats["disk_states"] = stats.get("disk_states", 0) + r.generated
+            stats["disk_distinct"] = stats.get("disk_distinct", 0) + r.distinct
+            stats["disk_wall"] = stats.get("disk_wall", 0) + r.wall
+            stats["images"] = stats.get("images", 0) + len(imgs)
+            stats["disk_chunks"] = stats.get("disk_chunks", 0) + 1
+        r.out = r.lines = None
+        if part != io_path:
+            os.unlink(part)
     return by
 
 
